@@ -14,6 +14,6 @@ if s.count(old) < 1:
 s = s.replace(old, new, 1)
 open(p, "w").write(s)
 P
-( cd /verif && TWVERIF_REPO="$W" TWVERIF_HOME_EVIDENCE_SKIP=1 ./check "$ID" "$TIER" | grep -E "VIOLATION|held|inconclusive|INCONCLUSIVE|KNOWN|clause" | head -8 )
+( cd /verif && TWVERIF_REPO="$W" TWVERIF_HOME_EVIDENCE_SKIP=1 ./check "$ID" "$TIER" | grep -E "VIOLATION|held|inconclusive|INCONCLUSIVE|KNOWN|clause" | head -5; echo "-----" )
 git -C /repo worktree remove --force "$W"
 git -C /verif checkout -q -- evidence 2>/dev/null
